@@ -913,7 +913,7 @@ def cache_invariant(run, twin=None):
     core.explore(lambda: None, lambda p, out: ground(p))
 
 
-@harness(['C07'], 'supp.project.Project.get_path')
+@harness(['C07', 'C17'], 'supp.project.Project.get_path')
 def get_path_contract(run):
     """get_path(): the source roots, then sys.path, each in its own order - as a search path that is: the sequence of FIRST occurrences of the
     directories is that of sources + sys.path (dropping a later duplicate changes no lookup; moving a directory behind others does)"""
@@ -931,14 +931,31 @@ def get_path_contract(run):
         for sources, syspath in ((['/r1', '/r2'], ['/lib', '/site']), (['/r1', '/r2', '/r1'], ['/lib']), (['/r1'], ['/lib', '/r1', '/site']),
                                  (['/r2', '/r1'], ['/r1', '/lib', '/lib']), (['/r1'], [])):
             run.case = '%r + %r' % (sources, syspath)
-            f2 = loader.load('supp.project', 'Project.get_path', stubs={'sys': type('SysStub', (), {'path': list(syspath)})})
-            s = real_project(Pj, sources=list(sources))
-            try:
-                got = list(f2(s))
-            except Exception as e:
-                got = ['<raised %s>' % type(e).__name__]
-            prove('search-order-is-roots-then-sys.path', first_occurrences(got) == first_occurrences(sources + syspath),
-                  clause='first occurrences of %r == first occurrences of sources + sys.path %r' % (got, sources + syspath), path=path)
+            # (any set the function builds iterates in an order of the checker's choosing: the language promises none)
+            class AnyOrderSet(object):
+                def __init__(self, it=()):
+                    self.items = []
+                    for x in it:
+                        if x not in self.items:
+                            self.items.append(x)
+
+                def __iter__(self):
+                    return iter(self.items[1::2] + self.items[0::2][::-1])
+
+                def __len__(self):
+                    return len(self.items)
+
+                def __contains__(self, x):
+                    return x in self.items
+            for order, extra in (('', {}), ('[sets iterate in another order]', {'set': AnyOrderSet, 'frozenset': AnyOrderSet})):
+                f2 = loader.load('supp.project', 'Project.get_path', stubs=dict({'sys': type('SysStub', (), {'path': list(syspath)})}, **extra))
+                s = real_project(Pj, sources=list(sources))
+                try:
+                    got = list(f2(s))
+                except Exception as e:
+                    got = ['<raised %s>' % type(e).__name__]
+                prove('search-order-is-roots-then-sys.path%s' % order, first_occurrences(got) == first_occurrences(sources + syspath),
+                      clause='first occurrences of %r == first occurrences of sources + sys.path %r' % (got, sources + syspath), path=path)
         run.case = None
     core.explore(lambda: None, lambda p, out: go(p))
 
